@@ -255,6 +255,10 @@ def case(args):
         na = dict(attrs or {})
         if patterns:
             na["content-exclusion-patterns"] = list(patterns)
+        if rnd.random() < 0.3:
+            # the directory is to be scanned after these paths (ordering only)
+            sb.write("marker.txt", "marker\n"); sb.write("marker2.txt", "marker\n")
+            na["must-scan-after-paths"] = ["marker.txt", "marker2.txt"]
         if na:
             d.nodes[node] = na
         sb.write_desc(d)
